@@ -6,8 +6,8 @@ from core import Case
 from pyerr import canon_call, exc_code
 
 PROP = 'C20'
-COQ_TARGETS = ['theories/CalendarFacts.vo', 'theories/ScheduleFacts.vo']
-COQ_IMPORTS = 'From Bac Require Import Base PyRt Calendar ScheduleEval.\nFrom BacGen Require Import ScheduleFns.'
+COQ_TARGETS = ['theories/CalendarFacts.vo', 'theories/ScheduleFacts.vo', 'theories/ScheduleTzFacts.vo']
+COQ_IMPORTS = 'From Bac Require Import Base PyRt Calendar ScheduleEval ScheduleTz.\nFrom BacGen Require Import ScheduleFns.'
 TABLE_OBLIGATIONS = ['CalendarFacts.match_date_denotes', 'CalendarFacts.match_weeknday_denotes',
                      'CalendarFacts.match_date_range_denotes']
 RULE = ('cases: PyRt.last_day vs calendar.monthrange for every month of 1900..2154; the model successor-date walked through every '
@@ -18,18 +18,22 @@ RULE = ('cases: PyRt.last_day vs calendar.monthrange for every month of 1900..21
         'equal, 0 and 17, Null entries, 0..4 weekly entries per day, unsorted and wildcard times in a minority, open/closed effective periods) '
         'evaluated by LocalScheduleInterpreter.eval on real LocalScheduleObject instances at entry times, +-1 hundredth, and random '
         'instants, inside and outside the effective period; timer-driven multi-day runs of real objects under the virtual clock '
-        '(TZ=UTC) including effective-period entry and exit.  direct only: 6..10 schedule objects in one application with 20..40 '
+        '(TZ=UTC) including effective-period entry and exit; leap-rule boundary years (1900, 1904, 1996, 2000, 2004, 2096, 2100, 2104) x last-day / week-of-month 6..9 masks and '
+        'exceptions in force by month-end patterns on their late-February days; schedules with 2..4 exceptions of different priority all in force on the same day; '
+        'under POSIX DST zones (subprocesses): datetime_to_time on change days / summer / winter / year-end days incl. 24:00:00 and wildcards, Date.now/Time.now around the changes, '
+        'timer-driven objects compared by present value and armed instant, against ScheduleTz fed the zone\'s offset-change table (no input inside the skipped/repeated hour).  direct only: 6..10 schedule objects in one application with 20..40 '
         'run-time weeklySchedule rewrites (re-installed timers) sampled every 15 minutes for 3 days; timer-driven histories that begin '
         'before / inside / after the effective period whose start and end dates carry day-of-week 255 or specific and are otherwise specific, '
         'open, any-year or any-month, run over the period boundaries and midnights with the object\'s own pure eval as oracle, no exception '
         'escaping process_task and the task armed at every probe; 3 objects run across both '
         'UTC-offset change days of random years in subprocesses with TZ=EST5EDT,M3.2.0,M11.1.0 and TZ=AEST-10AEDT,M10.1.0,M4.1.0/3, '
-        'judged every 15 local minutes by local wall-clock reading (entries before and after the change, none inside 01:00-02:59).  non-trivial = a mask with a set and a clear bit, an evaluation that '
+        'and in the middle of daylight time and of standard time of those years, judged every 15 local minutes by local wall-clock reading (entries before and after the change, none inside 01:00-02:59) '
+        'and, after every firing, by the local reading of the armed instant = the transition the object\'s own eval reported.  non-trivial = a mask with a set and a clear bit, an evaluation that '
         'is inside the effective period with at least one entry in force, a run with >= 3 firings; distinct by (operation, input).')
 TRUSTED = ['model coq/theories/ScheduleEval.v written by hand after local/schedule.py:216-247,448-603 (line numbers of the fixed worktree) (tie = correspondence); '
            'gen/ScheduleFns.v is the AST translation of match_date/match_date_range/match_weeknday (theorems are about that text)',
-           'time.mktime/time.localtime (CPython/libc, POSIX TZ rules): modelled only for a constant UTC offset (ScheduleEval.normalise); '
-           'for zones with offset changes datetime_to_time is judged on the implementation by local wall-clock reading (ScheduleSpec.dtt_requirement)',
+           'time.mktime/time.localtime (CPython/libc, POSIX TZ rules): modelled by ScheduleTz.v (localtime_z, mktime_z) for zones with two offsets, tie = correspondence under two DST rules with the zone given '
+           'as the table of offset changes read off time.localtime; inside the skipped/repeated hour libc\'s choice is not modelled',
            'datetime.date (used as the calendar oracle for day-of-week and month lengths)',
            'the direct interpreter `spec_eval` in harness/props/c20.py (independent reading of clause 12.24.4)']
 ASSUMPTIONS = ['dates are real calendar days of 1900..2154 with the matching day-of-week field (what Date.now() produces)',
@@ -395,6 +399,7 @@ def rand_time(rng, whole=False):
     return (rng.randrange(24), rng.randrange(60), rng.randrange(60), 0 if (whole or rng.random() < 0.6) else rng.randrange(100))
 
 
+LEAP_EDGE_YEARS = [1900, 1904, 1996, 2000, 2004, 2096, 2100, 2104]
 DATE_GRID = {'month': [255, 13, 14, 2, 7, 12], 'day': [255, 32, 33, 34, 1, 29, 30, 31], 'dow': [255, 1, 2, 3, 4, 5, 6, 7]}
 
 
@@ -582,6 +587,14 @@ def matcher_cases(rng, tier):
                     s = (255, rng.randrange(1, 13), 255, 255)         # partial wildcards: raw comparison, still mirrored
                 out.append(case_mask('mask-range', 'match_date_range d (%s, %s)' % (tup(s), tup(e)),
                                      lambda d, s=s, e=e: S.match_date_range(d, _DR(s, e)), y, [list(s), list(e)]))
+    # leap-rule boundary years (century years 1900 / 2000 / 2100 and their leap neighbours): the patterns whose
+    # meaning depends on the length of February - last day of month, week-of-month 6..9 counted from the month's end
+    for y in LEAP_EDGE_YEARS:
+        for p in [(255, 2, 32, 255), (255, 255, 32, 255), (y - 1900, 14, 32, 255)]:
+            out.append(case_mask('mask-date', 'match_date d %s' % tup(p), lambda d, p=p: S.match_date(d, p), y, ['leap-edge'] + list(p)))
+        for k in (6, 7, 8, 9):
+            p = (rng.choice([2, 2, 255, 14]), k, rng.choice([255, 255, rng.randrange(1, 8)]))
+            out.append(case_mask('mask-wnd', 'match_weeknday d %s' % tup(p), lambda d, p=p: S.match_weeknday(d, bytes(p)), y, ['leap-edge'] + list(p)))
     # malformed dates and patterns: error paths
     for _ in range(600 if tier == 'thorough' else 150):
         d = (rng.choice([0, 100, 254, 255, 300]), rng.choice([0, 1, 2, 12, 13, 255]), rng.choice([0, 1, 28, 29, 31, 32, 255]),
@@ -603,7 +616,7 @@ def eval_cases(rng, tier, extra_cfgs=()):
     cfgs = list(extra_cfgs)
     for i in range(n):
         near = rand_date(rng)
-        cfgs.append((rand_cfg(rng, near, clean=(i % 3 == 0)), near))
+        cfgs.append((overlap_cfg(rng, near) if i % 8 == 5 else rand_cfg(rng, near, clean=(i % 3 == 0)), near))
     for cfg, near in cfgs:
         so, cleanup = build(cfg)
         try:
@@ -667,6 +680,24 @@ def run_cases(rng, tier):
     return out
 
 
+def overlap_cfg(rng, near_dt, whole=False):
+    """2..4 exceptions of DIFFERENT priority that are all in force on near_dt (and mostly on the days around it),
+    listed in random priority order, with relinquish entries and entries still ahead: the family in which the
+    16 priority slots must stay independent of each other"""
+    near = dtuple(near_dt)
+    k = rng.choice([2, 2, 3, 4])
+    prios = rng.sample(range(1, 17), k)
+    exc = []
+    for p in prios:
+        per = rng.choice([('date', (255, 255, 255, 255)), ('date', (near[0], near[1], 255, 255)), ('wnd', (255, 255, 255)),
+                          ('range', (dtuple(near_dt - datetime.timedelta(days=3))[:3] + (255,), dtuple(near_dt + datetime.timedelta(days=9))[:3] + (255,))),
+                          ('date', near)])
+        exc.append({'period': per, 'prio': p, 'tvs': rand_tvs(rng, rng.randrange(1, 5), whole)})
+    return {'eff': ((255, 255, 255, 255), (255, 255, 255, 255)),
+            'weekly': None if rng.random() < 0.3 else [rand_tvs(rng, rng.randrange(0, 4), whole) for _ in range(7)],
+            'exc': exc, 'cals': [], 'default': rng.randrange(0, 3), 'exc_present': True}
+
+
 def witness_cfgs():
     """the _refuted witness of props/C20.v (equal priorities) and the shapes of the two fixed defects"""
     anyd = ('date', (255, 255, 255, 255))
@@ -674,7 +705,182 @@ def witness_cfgs():
           'exc': [{'period': anyd, 'prio': 5, 'tvs': [((9, 0, 0, 0), 4)]}, {'period': anyd, 'prio': 5, 'tvs': [((10, 0, 0, 0), 1)]}]}
     closed = {'eff': ((121, 1, 1, 255), (121, 12, 31, 255)), 'weekly': [[((8, 0, 0, 0), 5)]] * 7, 'cals': [], 'default': 0,
               'exc_present': False, 'exc': []}
-    return [(eq, datetime.date(2020, 1, 1)), (closed, datetime.date(2020, 12, 31)), (closed, datetime.date(2021, 1, 1))]
+    out = [(eq, datetime.date(2020, 1, 1)), (closed, datetime.date(2020, 12, 31)), (closed, datetime.date(2021, 1, 1))]
+    # exceptions in force by month-end patterns, evaluated on the last days of February of the leap-rule boundary years
+    for y in (1900, 2000, 2100, 2004):
+        me = {'eff': ((255, 255, 255, 255), (255, 255, 255, 255)), 'weekly': [[((7, 0, 0, 0), 2)]] * 7, 'cals': [[('wnd', (255, 6, 255))]],
+              'default': 0, 'exc_present': True,
+              'exc': [{'period': ('date', (255, 255, 32, 255)), 'prio': 4, 'tvs': [((6, 0, 0, 0), 7), ((18, 0, 0, 0), None)]},
+                      {'period': ('ref', 0), 'prio': 9, 'tvs': [((0, 0, 0, 0), 5)]},
+                      {'period': ('wnd', (2, 7, 255)), 'prio': 12, 'tvs': [((9, 30, 0, 0), 6)]}]}
+        out.append((me, datetime.date(y, 2, 28)))
+        out.append((me, datetime.date(y, 2, 21)))
+    return out
+
+# ------------------------------------------------------------------ correspondence under daylight-saving zones (ScheduleTz.v)
+def zone_table(year):
+    """the zone of this process around `year` as the model wants it: (offset before, [(instant, offset from then on)...], o1, o2)
+    read off time.localtime hour by hour (trusted libc)"""
+    tbl = []
+    for y in (year - 1, year, year + 1):
+        for ch in offset_changes(y):
+            tbl.append((ch, utc_offset(ch)))
+    tbl = sorted(set(tbl))
+    base = utc_offset(tbl[0][0] - 7200) if tbl else utc_offset(0)
+    return base, tbl, -time.timezone, -time.altzone
+
+
+def coq_off(zt):
+    base, tbl, o1, o2 = zt
+    return '(off_tbl %s [%s])' % (z(base), '; '.join('(%s, %s)' % (z(a), z(o)) for a, o in tbl))
+
+
+def dst_cases_child(seed, tier):
+    """subprocess under a POSIX DST zone: run the real Date.now / Time.now / datetime_to_time / timer-driven objects and
+    return case records {kind, coq, exp, key, desc, nontrivial} for the in-kernel comparison with ScheduleTz"""
+    import random
+    from bacpypes.local import schedule as S
+    from bacpypes.primitivedata import Date, Time
+    os.environ['C20_DST'] = '1'
+    time.tzset()
+    World.get()
+    rng = random.Random(seed)
+    tz = os.environ.get('TZ', '')
+    out = []
+    years = [1900, 1969, 2000, 2154] + [rng.randrange(1901, 2154) for _ in range(20 if tier == 'thorough' else 5)]
+    for year in years:
+        zt = zone_table(year)
+        base, tbl, o1, o2 = zt
+        chs = offset_changes(year)
+        days = []          # datetime.date of: the change days, the day before each, mid-season days of both regimes, year ends
+        for ch in chs:
+            dd = datetime.date(*time.localtime(ch)[:3])
+            days += [dd, dd - datetime.timedelta(days=1)]
+        days += [datetime.date(year, 1, rng.randrange(1, 29)), datetime.date(year, 7, rng.randrange(1, 29)),
+                 datetime.date(year, rng.randrange(1, 13), rng.randrange(1, 29)), datetime.date(year, 12, 31), datetime.date(year, 2, 28)]
+        times = [(0, 0, 0, 0), (1, 30, 0, 0), (2, 30, 0, 0), (3, 0, 0, 0), (8, 0, 0, 0), (17, 30, 15, 0), (23, 59, 59, 99), (24, 0, 0, 0),
+                 rand_time(rng), rand_time(rng)]
+        items, exp = [], []
+        change_days = set(datetime.date(*time.localtime(ch)[:3]) for ch in chs)
+        for dd in days:
+            if not (START <= dd <= END):
+                continue
+            d = dtuple(dd)
+            for t in times:
+                if dd in change_days and t[0] in (1, 2):
+                    # the skipped / repeated wall-clock hours: libc's choice between the two readings is implementation
+                    # defined (glibc: 02:30:00 read as daylight, 02:35:58 as standard on 2068-04-01 AEST) - outside the domain
+                    continue
+                items.append('(%s, %s)' % (tup(d), tup(t)))
+                exp += canon_call(lambda: S.datetime_to_time(d, t), lambda a: [int(a)] if a == int(a) else [int(a), 1])
+        # error path: a wildcard anywhere
+        for d, t in [((255, 1, 1, 255), (0, 0, 0, 0)), (dtuple(datetime.date(year, 3, 1)), (24, 0, 0, 255)), (dtuple(datetime.date(year, 3, 1))[:3] + (255,), (8, 0, 0, 0))]:
+            items.append('(%s, %s)' % (tup(d), tup(t)))
+            exp += canon_call(lambda: S.datetime_to_time(d, t), lambda a: [int(a)])
+        out.append({'kind': 'dtt-z', 'exp': exp, 'key': ['dtt-z', tz, year], 'nontrivial': len(chs) == 2,
+                    'coq': 'let off := %s in flat_map (fun x => canon_res (fun a => [a]) (datetime_to_time_z off %s %s (fst x) (snd x))) [%s]'
+                           % (coq_off(zt), z(o1), z(o2), '; '.join(items)),
+                    'desc': {'op': 'datetime_to_time', 'tz': tz, 'year': year, 'inputs': len(items)}})
+        # Date().now(when) / Time().now(when) at whole-second instants around the changes and in both seasons
+        inst = []
+        for ch in chs:
+            inst += [ch - 3601, ch - 1, ch, ch + 1, ch + 1799, ch + 3600, ch + 7200]
+        e0 = calendar.timegm((year, 1, 1, 0, 0, 0))
+        inst += [e0 + rng.randrange(0, 365 * 86400) for _ in range(12)] + [e0, e0 + 181 * 86400 + 12 * 3600]
+        exp = []
+        for e in inst:
+            exp += list(Date().now(float(e)).value) + list(Time().now(float(e)).value)
+        out.append({'kind': 'now-z', 'exp': exp, 'key': ['now-z', tz, year], 'nontrivial': len(chs) == 2,
+                    'coq': 'let off := %s in flat_map (fun e => canon_dt (localtime_z off e)) [%s]' % (coq_off(zt), '; '.join(z(e) for e in inst)),
+                    'desc': {'op': 'Date.now/Time.now', 'tz': tz, 'year': year, 'instants': len(inst)}})
+    # timer-driven real objects: present value and ARMED INSTANT after every firing, mid-season and over the change days
+    nrun = 40 if tier == 'thorough' else 10
+    tries = 0
+    nr = 0
+    while nr < nrun and tries < 10 * nrun:
+        tries += 1
+        year = rng.randrange(1971, 2150)
+        chs = offset_changes(year)
+        if len(chs) != 2:
+            continue
+        zt = zone_table(year)
+        base, tbl, o1, o2 = zt
+        where = tries % 4
+        anchor = [chs[0], chs[1], (chs[0] + chs[1]) // 2, chs[0] - 45 * 86400][where] - rng.randrange(6, 40) * 3600
+        anchor -= anchor % 60
+        near = datetime.date(*time.localtime(anchor)[:3])
+        cfg = avoid_hours(rand_cfg(rng, near, clean=(rng.random() < 0.8), whole=True))
+        if rng.random() < 0.6:
+            cfg['eff'] = ((255, 255, 255, 255), (255, 255, 255, 255))
+        if where < 2 and cfg['weekly'] is not None and rng.random() < 0.5:
+            cfg['weekly'] = [[((0, 30, 0, 0), 1), ((3, 30, 0, 0), 2), ((8, 0, 0, 0), 3), ((17, 0, 0, 0), None), ((23, 45, 0, 0), 4)]] * 7
+        maxfire = rng.choice([8, 12, 16])
+        w = World.get()
+        w.reset()
+        w.now[0] = float(anchor)
+        so, cleanup = build(cfg, pv=99, attach=True)
+        trace, fired = [], 0
+        try:
+            if so.reliability != 'noFaultDetected':
+                continue
+            try:
+                w.drain()
+                while True:
+                    fired += 1
+                    nxt = w.tm.tasks[0][0] if w.tm.tasks else None
+                    if nxt is None or nxt != int(nxt):
+                        trace += [9]
+                        break
+                    trace += [0, so.presentValue.value, int(nxt)]
+                    if fired >= maxfire:
+                        break
+                    w.now[0] = max(w.now[0], nxt)
+                    task, _ = w.tm.get_next_task()
+                    if task is None:
+                        trace += [9]
+                        break
+                    w.tm.process_task(task)
+                    w.drain()
+            except Exception as e:
+                trace += [1, exc_code(e)]
+        finally:
+            cleanup()
+        nr += 1
+        out.append({'kind': 'run-z', 'exp': trace, 'key': ['run-z', tz, anchor, coq_cfg(cfg)], 'nontrivial': fired >= 3,
+                    'coq': 'canon_run_z (run_z %d%%nat %s %s %s %s %s 99)' % (maxfire, coq_off(zt), z(o1), z(o2), coq_cfg(cfg), z(anchor)),
+                    'desc': {'op': 'run-z', 'tz': tz, 'cfg': cfg, 'start_epoch': anchor, 'fires': maxfire,
+                             'start_local': list(local_reading(anchor)[0]) + list(local_reading(anchor)[1])}})
+    return out
+
+
+def dst_corr_cases(rng, tier):
+    harness = os.path.dirname(os.path.dirname(os.path.abspath(__file__)))
+    out = []
+    for tz in DST_ZONES:
+        seed = rng.randrange(1 << 30)
+        code = ('import sys, json; sys.path.insert(0, %r); import core; core.impl_import_guard(); import props.c20 as m; '
+                'print("C20DSTC" + json.dumps(m.dst_cases_child(%d, %r), default=str))' % (harness, seed, tier))
+        p = subprocess.run([sys.executable, '-c', code], env=dict(os.environ, TZ=tz, C20_DST='1'), capture_output=True, text=True, timeout=1200)
+        line = [l for l in p.stdout.splitlines() if l.startswith('C20DSTC')]
+        if p.returncode != 0 or not line:
+            # fail closed: a case whose expectation nothing can meet
+            out.append(Case('dst-harness', '[0]', [1], key=('dst-harness', tz), desc={'op': 'dst-cases-subprocess', 'tz': tz, 'log': (p.stdout + p.stderr)[-1500:]}))
+            continue
+        for r in json.loads(line[-1][7:]):
+            out.append(Case(r['kind'], r['coq'], r['exp'], key=tuple(str(x) for x in r['key']), nontrivial=r['nontrivial'], desc=r['desc']))
+    return out
+
+
+def civil_cases():
+    """ties ScheduleTz.days_from_civil / date_of_days to CPython's calendar.timegm / datetime for every year"""
+    out = []
+    for y in range(1900, 2155):
+        exp = [calendar.timegm((y, m, 1, 0, 0, 0)) // 86400 for m in range(1, 13)]
+        mid = datetime.date(y, 2, 28) + datetime.timedelta(days=1)
+        exp += list(dtuple(mid)) + list(dtuple(datetime.date(y, 12, 31)))
+        out.append(Case('civil', 'map (fun m => days_from_civil %d m 1) [1;2;3;4;5;6;7;8;9;10;11;12] ++ canon_t4 (date_of_days (days_from_civil %d 2 28 + 1)) '
+                                 '++ canon_t4 (date_of_days (days_from_civil %d 12 31))' % (y, y, y), exp, key=('civil', y), desc={'op': 'civil', 'year': y}))
+    return out
 
 
 def cases(rng, tier):
@@ -682,6 +888,8 @@ def cases(rng, tier):
     out = matcher_cases(rng, tier)
     out += eval_cases(rng, tier, witness_cfgs())
     out += run_cases(rng, tier)
+    out += civil_cases()
+    out += dst_corr_cases(rng, tier)
     return out
 
 
@@ -813,6 +1021,43 @@ def _weekly_value(weekly):
         [DailySchedule(daySchedule=[TimeValue(time=tuple(t), value=_val(v)) for t, v in day]) for day in weekly])
 
 
+def wall_seconds(e):
+    """the local wall clock at the instant e as one number (seconds; trusted: time.localtime)"""
+    return calendar.timegm(time.localtime(math.floor(e))[:6])
+
+
+def reading_exists(wallsec):
+    """is there an instant whose local wall clock reads wallsec?  (candidates: every UTC offset seen within a day)"""
+    for probe in (wallsec - 86400, wallsec, wallsec + 86400):
+        c = wallsec - utc_offset(probe)
+        if wall_seconds(c) == wallsec:
+            return True
+    return False
+
+
+def armed_reading_failure(task, objs, fired_at):
+    """dtt_requirement on the implementation: after a firing at the instant fired_at the timer of that object must be
+    armed for an instant whose LOCAL wall-clock reading is (date of the firing, next transition reported by the
+    object's own pure eval for the local date/time of the firing; 24:00 = 00:00 of the next day) - whenever some
+    instant has that reading (in the skipped hour of a change day none has: anything is accepted)."""
+    for k, o in enumerate(objs):
+        so = o['so']
+        if so._task is not task or not task.isScheduled or task.taskTime is None:
+            continue
+        d, t = local_reading(fired_at)
+        r = so._task.eval(tuple(d), tuple(t))
+        n = (24, 0, 0, 0) if r is None else tuple(r[1])
+        if 255 in n:
+            return None
+        want = calendar.timegm((d[0] + 1900, d[1], d[2], n[0], n[1], n[2]))
+        got = wall_seconds(task.taskTime)
+        if got != want and reading_exists(want):
+            ad, at = local_reading(task.taskTime)
+            return {'kind': 'armed-wrong-wall-clock', 'object': k, 'cfg': o['cfg'], 'date': list(d), 'time': list(t), 'at': list(d) + list(t),
+                    'reported_next': list(n), 'armed_reads': list(ad) + list(at), 'armed_epoch': task.taskTime, 'objects': len(objs)}
+    return None
+
+
 def run_scenario(scn, failures, stats):
     """scn = {'cfgs': [...], 'start': epoch, 'end': epoch, 'step': seconds, 'actions': [[epoch, index, weekly], ...], 'tz': ...}.
     All objects live in one application and are driven by the one task manager on the virtual clock.  At every
@@ -852,6 +1097,10 @@ def run_scenario(scn, failures, stats):
                         break
                     w.tm.process_task(task)
                     w.drain()
+                    bad = armed_reading_failure(task, objs, w.now[0])
+                    if bad is not None:
+                        failures.append(dict(base, **bad))
+                        return
                     guard += 1
                     if guard > 400:
                         d, t = local_reading(w.now[0])
@@ -996,7 +1245,12 @@ def dst_scenarios(rng, n):
     out = []
     while len(out) < n:
         year = rng.randrange(1975, 2100)
-        for ch in offset_changes(year):
+        chs = offset_changes(year)
+        # besides the two change days: a stretch in the middle of each of the two regimes of that year (one of them is
+        # daylight time: "summer"), so that a conversion that is right only under the standard offset is seen at
+        # ordinary entry times (08:00, 17:00, midnight roll-over), far from any change day
+        mids = [(chs[0] + chs[1]) // 2 + rng.randrange(-40, 41) * 86400, chs[0] - rng.randrange(20, 60) * 86400] if len(chs) == 2 else []
+        for ch in chs + mids:
             g = time.localtime(ch - 30 * 3600)
             start = ch - 30 * 3600 - (g[3] * 3600 + g[4] * 60 + g[5])          # a local midnight before the change
             near = datetime.date(*time.localtime(ch)[:3])
@@ -1010,7 +1264,7 @@ def dst_scenarios(rng, n):
                     cfg['eff'] = ((255, 255, 255, 255), (255, 255, 255, 255))
                 cfgs.append(cfg)
             out.append({'cfgs': cfgs, 'start': start, 'end': start + 4 * 86400, 'step': 900, 'actions': [],
-                        'tz': os.environ.get('TZ', ''), 'label': 'dst'})
+                        'tz': os.environ.get('TZ', ''), 'label': 'dst' if ch in chs else 'dst-mid-season'})
     return out[:n]
 
 
@@ -1023,7 +1277,7 @@ def dst_child(seed, tier):
     rng = random.Random(seed)
     failures = []
     stats = {'evaluations': 0, 'nontrivial': set()}
-    for scn in dst_scenarios(rng, 24 if tier == 'thorough' else 6):
+    for scn in dst_scenarios(rng, 24 if tier == 'thorough' else 8):
         run_scenario(scn, failures, stats)
         if len(failures) > 3:
             break
@@ -1102,6 +1356,21 @@ def direct(rng, tier, focus=()):
             if want is not None and bool(got) != bool(want):
                 mism.setdefault(what[0], {'kind': 'pattern-mismatch', 'fn': what[0], 'date': list(d), 'pattern': what[1], 'got': bool(got), 'want': bool(want)})
         dt += one
+    # the month-length dependent classes, deterministically: the last 9 days of every February of 1900..2154 and of
+    # every month of the leap-rule boundary years, against last-day-of-month and week-of-month 6..9
+    for y in range(1900, 2155):
+        for m in (range(1, 13) if y in LEAP_EDGE_YEARS else (2,)):
+            ml = month_len(y, m)
+            for dd in range(ml - 8, ml + 1):
+                d = dtuple(datetime.date(y, m, dd))
+                pats = [('match_date', (255, 255, 32, 255)), ('match_date', (d[0], m, 32, d[3]))] + \
+                       [('match_weeknday', (255, k, 255)) for k in (6, 7, 8, 9)]
+                for fn, pt in pats:
+                    got = S.match_date(d, pt) if fn == 'match_date' else S.match_weeknday(d, bytes(pt))
+                    want = den_date(pt, d) if fn == 'match_date' else den_wnd(pt, d)
+                    nm += 1
+                    if bool(got) != bool(want):
+                        mism.setdefault(fn + '-month-end', {'kind': 'pattern-mismatch', 'fn': fn, 'date': list(d), 'pattern': pt, 'got': bool(got), 'want': bool(want)})
     failures.extend(mism.values())
     stats['matcher_evaluations'] = nm
     samples.append({'direct': 'matchers', 'dates': 'every day 1900-01-01..2154-12-31', 'patterns_per_date': per_date})
@@ -1110,7 +1379,7 @@ def direct(rng, tier, focus=()):
     cfgs = [(c, n, 'witness') for c, n in witness_cfgs()]
     for i in range(nsched):
         near = rand_date(rng)
-        cfgs.append((rand_cfg(rng, near, clean=True), near, 'random'))
+        cfgs.append((overlap_cfg(rng, near) if i % 4 == 1 else rand_cfg(rng, near, clean=True), near, 'overlap' if i % 4 == 1 else 'random'))
     for f in focus:
         if isinstance(f, dict) and f.get('op') in ('eval', 'run'):
             dd = f['date']
@@ -1138,7 +1407,7 @@ def direct(rng, tier, focus=()):
         near = rand_date(rng)
         if near > END - datetime.timedelta(days=40):
             continue
-        cfg = rand_cfg(rng, near, clean=True, whole=True)
+        cfg = overlap_cfg(rng, near, whole=True) if i % 5 == 2 else rand_cfg(rng, near, clean=True, whole=True)
         mode = i % 3
         if mode == 0:      # created before the period opens, period closes again
             a = near + datetime.timedelta(days=rng.choice([1, 2]))
